@@ -44,13 +44,13 @@ RS = {'probe': [2, 1], 'CubicSpline': [2, 1], 'Gaussian': [3, 1],
 NAMES = ('a', 'b', 'c')
 
 SIZES = {
-    'quick': dict(nh=22, nh3=8, dims=(1, 2), dims3=('shepard', 'order1'),
+    'quick': dict(nh=15, nh3=6, hgrow=4, dims=(1, 2), dims3=('shepard', 'order1'),
                   narrs=(1, 2), shipped=('CubicSpline', 'Gaussian'),
                   shipped_methods=('shepard', 'splash_norm'), nh_ship=16,
                   periodic=('shepard', 'sph', 'order1'), nh_per=12,
                   design=('Interp.hist.cfg', 'Interp.f1.cfg',
                           'Interp.f2.cfg'), design_workers=4),
-    'thorough': dict(nh=150, nh3=60, dims=(1, 2), dims3=METHODS,
+    'thorough': dict(nh=150, nh3=60, hgrow=20, dims=(1, 2), dims3=METHODS,
                      narrs=(1, 2, 3),
                      shipped=('CubicSpline', 'Gaussian', 'QuinticSpline',
                               'WendlandQuintic'),
@@ -85,14 +85,14 @@ def rand_coord(rng, dim, lo, hi):
     return c
 
 
-def gen_array(rng, name, dim, n, tiny, method=None):
+def gen_array(rng, name, props, dim, n, tiny, method=None, hvals=(1, 1, 2)):
     p = []
     for i in range(n):
         c = rand_coord(rng, dim, 0, span(dim, method))
-        p.append(dict(x=c[0], y=c[1], z=c[2], h=rng.choice((1, 1, 2)),
+        p.append(dict(x=c[0], y=c[1], z=c[2], h=rng.choice(hvals),
                       m=rng.randint(1, 3),
-                      rho=1 if tiny else rng.randint(1, 3), f=0))
-    return dict(name=name, p=p)
+                      rho=1 if tiny else rng.randint(1, 3), f=0, g=0))
+    return dict(name=name, props=list(props), p=p)
 
 
 def spans_dim(src, dim):
@@ -103,31 +103,45 @@ def spans_dim(src, dim):
     return True
 
 
-def gen_src(rng, names, dim, tiny, must_span, maxn, method=None):
+def gen_src(rng, cfg, tiny, must_span, maxn, hvals=(1, 1, 2)):
+    names, dim, method = cfg['names'], cfg['dim'], cfg['method']
     while True:
         lo = maxn - 1 if method == 'order1' else 1
-        src = [gen_array(rng, nm, dim, rng.randint(lo, maxn), tiny, method)
+        src = [gen_array(rng, nm, cfg['props'][nm], dim,
+                         rng.randint(lo, maxn), tiny, method, hvals)
                for nm in names]
         if not must_span or spans_dim(src, dim):
             return src
 
 
-def set_field(rng, src, dim, kind):
-    """Write f on all particles; returns the claimed linear form."""
+NO_LIN = {'a': 0, 'b': [0, 0, 0], 'is': False}
+ZERO_LIN = {'a': 0, 'b': [0, 0, 0], 'is': True}
+
+
+def set_field(rng, src, dim, kind, prop):
+    """Write the values of the user property `prop` on the arrays that have
+    it; returns the linear form satisfied by the field interpolate(prop)
+    sees (an array lacking the property counts with 0)."""
+    have = [a for a in src if prop in a['props']]
+    lacking = any(prop not in a['props'] and a['p'] for a in src)
+    if not have:
+        return dict(ZERO_LIN)
     if kind == 'data':
-        for a in src:
+        for a in have:
             for q in a['p']:
-                q['f'] = rng.randint(-8, 8)
-        return dict(a=0, b=[0, 0, 0]) | {'is': False}
+                q[prop] = rng.randint(-8, 8)
+        return dict(NO_LIN)
     a0 = rng.randint(-4, 4)
     b = [0, 0, 0]
     if kind == 'linear':
         for k in range(dim):
             # (no slope along a periodic axis: the images carry the values)
             b[k] = 0 if PER and PER[k] else rng.randint(-2, 2)
-    for a in src:
+    for a in have:
         for q in a['p']:
-            q['f'] = a0 + b[0] * q['x'] + b[1] * q['y'] + b[2] * q['z']
+            q[prop] = a0 + b[0] * q['x'] + b[1] * q['y'] + b[2] * q['z']
+    if lacking and (a0 or any(b)):
+        return dict(NO_LIN)
     return dict(a=a0, b=b) | {'is': True}
 
 
@@ -151,6 +165,9 @@ def gen_pts(rng, dim, api, method=None):
 
 
 def gen_history(rng, cfg, hid, first, family='plain'):
+    """family: plain | tiny (lattice unit 2^-21, C14-abs-weight-threshold) |
+    order (update_particle_arrays with permuted arrays, C14-array-order) |
+    hgrow (all h = 1 at first; h grows in place, then update())."""
     dim, method, api = cfg['dim'], cfg['method'], cfg['api']
     names = cfg['names']
     tiny = family == 'tiny'
@@ -172,17 +189,62 @@ def gen_history(rng, cfg, hid, first, family='plain'):
     org = [rng.randint(-4, 4) if k < dim else 0 for k in range(3)]
     if cfg.get('per_fixed'):
         ue, org = cfg['per_fixed']
-    st = dict(src=gen_src(rng, names, dim, tiny, first, maxn, method),
+    hv = (1,) if family == 'hgrow' else (1, 1, 2)
+    st = dict(src=gen_src(rng, cfg, tiny, first, maxn, hv),
               pts=gen_pts(rng, dim, api, method))
-    st['lin'] = set_field(rng, st['src'], dim, field_kind(rng, method))
+    user = ('f',) if api == 'eval' else ('f', 'g')
+
+    def new_fields():
+        st['lins'] = dict((p, set_field(rng, st['src'], dim,
+                                        field_kind(rng, method), p))
+                          for p in user)
+    new_fields()
     steps = []
 
-    def emit(act):
+    def emit(act, prop='f'):
         steps.append(dict(act=act, src=copy.deepcopy(st['src']),
-                          pts=copy.deepcopy(st['pts']),
-                          lin=copy.deepcopy(st['lin'])))
+                          pts=copy.deepcopy(st['pts']), prop=prop,
+                          lin=copy.deepcopy(st['lins'].get(prop, ZERO_LIN))))
+
+    def interpolate():
+        # one to three calls in a row, for different properties: a property
+        # some arrays lack, one no array has ("zz")
+        if api == 'eval':
+            return emit('Interpolate', 'f')
+        for i in range(rng.choice((1, 1, 2, 3))):
+            emit('Interpolate', rng.choice(('f', 'f', 'f', 'g', 'g', 'zz')))
+
+    def moved():
+        for p in user:
+            if st['lins'][p]['is'] and any(st['lins'][p]['b']):
+                st['lins'][p] = dict(NO_LIN)
+
+    if family == 'hgrow':
+        # targets two binning cells (of the h = 1 search) away from sources
+        # that will grow: 3 lattice units along x, up to 1 across
+        ps = [q for a in st['src'] for q in a['p']]
+        st['pts'] = st['pts'][:1]
+        for i in range(rng.randint(3, 5)):
+            q = rng.choice(ps)
+            c = [q['x'] + rng.choice((-3, 3)), q['y'], q['z']]
+            for k in range(1, dim):
+                c[k] += rng.choice((-1, 0, 1))
+            st['pts'].append(dict(x=c[0], y=c[1], z=c[2], h=0))
     emit('Reset')
-    emit('Interpolate')
+    interpolate()
+    if family == 'hgrow':
+        for hnew in (rng.choice((2, 3)), 3):
+            ps = [q for a in st['src'] for q in a['p']]
+            for q in rng.sample(ps, rng.randint((len(ps) + 1) // 2, len(ps))):
+                q['h'] = max(q['h'], hnew)
+            if rng.random() < 0.3:
+                q = rng.choice(ps)
+                q['x'], q['y'], q['z'] = rand_coord(rng, dim, 0,
+                                                    span(dim, method))
+                moved()
+            emit('MoveUpdate')
+            interpolate()
+        return dict(id=hid, ue=ue, org=org, family=family, steps=steps)
     for it in range(rng.randint(2, 5)):
         for rep in range(rng.choice((1, 1, 1, 2))):
             act = rng.choice(('SetPoints', 'UpdateArrays', 'UpdateArrays',
@@ -192,15 +254,13 @@ def gen_history(rng, cfg, hid, first, family='plain'):
             if act == 'SetPoints':
                 st['pts'] = gen_pts(rng, dim, api, method)
             elif act.startswith('UpdateArrays'):
-                st['src'] = gen_src(rng, names, dim, tiny, False, maxn,
-                                    method)
+                st['src'] = gen_src(rng, cfg, tiny, False, maxn)
                 if act == 'UpdateArraysPermuted':
                     st['src'] = st['src'][1:] + st['src'][:1]
                 elif family == 'order':
                     # back to the order of construction
                     st['src'].sort(key=lambda a: names.index(a['name']))
-                st['lin'] = set_field(rng, st['src'], dim,
-                                      field_kind(rng, method))
+                new_fields()
                 act = 'UpdateArrays'
             elif act == 'MoveUpdate':
                 for a in st['src']:
@@ -210,13 +270,11 @@ def gen_history(rng, cfg, hid, first, family='plain'):
                             q['x'], q['y'], q['z'] = c
                         if rng.random() < 0.3:
                             q['h'] = rng.choice((1, 2))
-                if st['lin']['is'] and any(st['lin']['b']):
-                    st['lin'] = dict(st['lin']) | {'is': False}
+                moved()
                 emit(act)
                 if method == 'order1' or rng.random() < 0.3:
-                    # a new field on the new positions
-                    st['lin'] = set_field(rng, st['src'], dim,
-                                          field_kind(rng, method))
+                    # new fields on the new positions
+                    new_fields()
                     act = 'SetValues'
                 else:
                     continue
@@ -227,13 +285,12 @@ def gen_history(rng, cfg, hid, first, family='plain'):
                             q['m'] = rng.randint(1, 3)
                         if rng.random() < 0.5 and not tiny:
                             q['rho'] = rng.randint(1, 3)
-                st['lin'] = set_field(rng, st['src'], dim,
-                                      field_kind(rng, method))
+                new_fields()
             emit(act)
         if rng.random() < 0.9 or it == 0:
-            emit('Interpolate')
+            interpolate()
     if steps[-1]['act'] != 'Interpolate':
-        emit('Interpolate')
+        interpolate()
     return dict(id=hid, ue=ue, org=org, family=family, steps=steps)
 
 
@@ -247,18 +304,35 @@ def gen_sessions(tier, rng):
                    names=list(NAMES[:narr]), exact=(kernel == 'probe'),
                    rs=RS[kernel], per=per or [0, 0, 0])
         PER = per
+        # user properties per array: "f" everywhere for the evaluator and
+        # order1 (linear fields), otherwise on some arrays only; "g" never
+        # on all arrays of a multi-array session
+        if api == 'eval':
+            pr = [['f']] * 3
+        elif method == 'order1':
+            pr = [['f', 'g'], ['f'], ['f', 'g']]
+        else:
+            pr = [rng.choice((['f', 'g'], ['f', 'g'], ['f'])) if narr == 1
+                  else ['f', 'g'],
+                  rng.choice((['f'], ['g'])),
+                  rng.choice((['f', 'g'], ['g'], []))]
+        cfg['props'] = dict(zip(NAMES, pr))
         if per:
             cfg['per_fixed'] = (rng.choice((0, -2, 1)),
                                 [rng.randint(-4, 4) if k < dim else 0
                                  for k in range(3)])
         sid = 's%d' % len(sessions)
         hs = []
-        for i in range(nh + tiny + order):
+        hgrow = sz['hgrow'] if (kernel == 'probe' and api == 'interp'
+                                and not per) else 0
+        for i in range(nh + tiny + order + hgrow):
             fam = 'plain'
             if nh <= i < nh + tiny:
                 fam = 'tiny'
-            elif i >= nh + tiny:
+            elif nh + tiny <= i < nh + tiny + order:
                 fam = 'order'
+            elif i >= nh + tiny + order:
+                fam = 'hgrow'
             hs.append(gen_history(rng, cfg, '%s-h%d' % (sid, i), i == 0, fam))
         sessions.append(dict(sid=sid, cfg=cfg, histories=hs))
         PER = None
@@ -315,8 +389,9 @@ def universe_sessions(chk, rng, per_history=16):
     TLC (InterpMC with Interp.emit.cfg), through the real Interpolator with
     every method, at all lattice points within reach; the sets follow one
     another on a live object by update_particle_arrays (every fourth one by
-    a Reset: new arrays and new points).  quick: every set with one of the
-    five methods; thorough: every set with every method."""
+    a Reset: new arrays and new points).  quick: half of the sets (by seed
+    parity), each with one of the five methods; thorough: every set with
+    every method."""
     r = tlc.run('InterpMC', 'Interp.emit.cfg', workers=4, timeout=1200)
     if not r['ok']:
         raise MachineryError('universe enumeration failed:\n' +
@@ -324,6 +399,11 @@ def universe_sessions(chk, rng, per_history=16):
     cases = tlc.parse_prints(r['out'], 'CASE')
     if len(cases) < 1000:
         raise MachineryError('universe enumeration: %d cases' % len(cases))
+    ntotal = len(cases)
+    if chk.tier == 'quick':
+        # half of the universe per run (the other half with seed + 1)
+        cases.sort(key=lambda s: json.dumps(s, sort_keys=True))
+        cases = cases[chk.seed % 2::2]
     rng.shuffle(cases)
     pts = [dict(x=x, y=0, z=0, h=0) for x in range(-2, 6)]
     sessions = []
@@ -343,7 +423,7 @@ def universe_sessions(chk, rng, per_history=16):
             steps = []
             for j, src in enumerate(mine[i:i + per_history]):
                 lin = claim_linear(src)
-                st = dict(src=src, pts=pts, lin=lin)
+                st = dict(src=src, pts=pts, prop='f', lin=lin)
                 steps.append(dict(st, act='Reset' if j % 4 == 0
                                   else 'UpdateArrays'))
                 steps.append(dict(st, act='Interpolate'))
@@ -352,7 +432,8 @@ def universe_sessions(chk, rng, per_history=16):
                            org=[rng.randint(-4, 4), 0, 0], family='universe',
                            steps=steps))
         sessions.append(dict(sid=sid, cfg=cfg, histories=hs))
-    return sessions, dict(cases=len(cases), states=r['distinct'],
+    return sessions, dict(universe=ntotal, cases=len(cases),
+                          states=r['distinct'],
                           transitions=r['generated'],
                           methods_per_case=1 if chk.tier == 'quick' else 5)
 
@@ -397,6 +478,8 @@ def run_session(chk, ses, tag='', mutant=None, timeout=1500):
                            env_extra={'OMP_NUM_THREADS': '1'})
             rc = p.returncode
             err = (p.stderr or '')[-3000:]
+            if rc > 0:
+                err = (p.stdout or '')[-1500:] + err
         except Exception as ex:          # subprocess.TimeoutExpired
             rc, err, what = -9, str(ex), 'driver timed out'
         got = read_lines(fo)
@@ -598,7 +681,7 @@ def design(chk, out):
 
 # ---------------------------------------------------------------------------
 def inputs_key(t, upto):
-    steps = [dict((k, s[k]) for k in ('act', 'src', 'pts', 'lin'))
+    steps = [dict((k, s[k]) for k in ('act', 'src', 'pts', 'prop', 'lin'))
              for s in t['steps'][:upto]]
     return hashlib.sha1(json.dumps([t['cfg'], steps],
                                    sort_keys=True).encode()).hexdigest()
@@ -655,10 +738,12 @@ def selftest(chk):
                         ('sph-no-mass', ('interp', 'sph', 2, 1)),
                         ('skip-rebind', ('interp', 'shepard', 2, 1)),
                         ('no-nnps-update', ('interp', 'sph', 1, 2)),
-                        ('stale-points', ('interp', 'splash', 1, 1))):
+                        ('stale-points', ('interp', 'splash', 1, 1)),
+                        ('stale-staging', ('interp', 'shepard', 1, 2)),
+                        ('no-update-domain', ('interp', 'sph', 1, 1))):
         ses = pick(*sel)
         ses = dict(ses, histories=[h for h in ses['histories']
-                                   if h['family'] == 'plain'][:10])
+                                   if h['family'] in ('plain', 'hgrow')][-12:])
         traces = run_sessions(chk, [ses], tag=mutant + '-', mutant=mutant)
         vs, _ = validate(chk, traces, tag=mutant + '-')
         caught = [v for v in vs if v['failed'] and not v['explained']]
